@@ -16,7 +16,7 @@ RULE = ("outcome contract on VerifyingKey.verify_digest/verify: expected = True 
         "and encoding attacks on valid signatures. non-trivial key = (curve, case class, decoder, expected outcome)")
 ASSUMPTIONS = ["reference verifier and strict decoders (vf/ref)", "public key Q_ref is recomputed from d by the reference, not read from the key object"]
 REQUIRED = {"quick": ["toy.accept", "toy.reject", "toy.wrap_accept", "prod.valid", "prod.R_infinity", "prod.wrap_accept", "prod.wrap_r_plus_n",
-                      "prod.range_edge", "prod.malleated_s", "prod.wrong_msg", "prod.wrong_key", "prod.swapped", "enc.truncated", "enc.der_defect",
+                      "prod.range_edge", "prod.malleated_s", "prod.wrong_msg", "prod.wrong_key", "prod.swapped", "enc.truncated", "enc.der_defect", "enc.der_tree",
                       "enc.raw_length", "baddigest"]}
 EXHAUSTIVE = {"quick": ["4 toy prime-order curves (n<=13, incl. n<p): every key, 32 digests, all (r,s) in [0,n+2]^2 raw"],
               "thorough": ["12 toy prime-order curves (n<=31): every key, all 256 one-byte digests, all (r,s) in [0,n+2]^2 raw; DER/strings on [0,n]^2"]}
@@ -350,6 +350,9 @@ def run(ctx, name, kind, **kw):
             }
             for nm, blob in defects.items():
                 JJ("enc.der_defect", blob, "der", nm)
+            # one node of the DER tree edited with every ENCLOSING length re-encoded (inner length fields that overrun, pad bytes alone, ...)
+            for k2, mut in gen.der_tree_mutations(der):
+                JJ("enc.der_tree", mut, "der", k2)
             # DER fed to the raw decoder and vice versa
             JJ("enc.cross_format", der, "string", "der_as_raw")
             JJ("enc.cross_format", raw, "der", "raw_as_der")
